@@ -25,7 +25,7 @@ import (
 func init() {
 	Registry["C08"] = &Check{
 		Scenarios: c08Scenarios,
-		Rule: "Two connections send requests no handler matches while nobody reads ErrorReports, then a handled one each. Two relay scenarios with a multistream (SCTP) connection B, forwarded to with Message.WriteTo and with the raw Conn.Write adaptor. Two relay scenarios: a handler of connection A blocks inside a Write to connection B (whose peer has stopped reading) while B keeps receiving - under a Server with and without ReadTimeout / WriteTimeout. In the blocked-handler mode (two of the six arrival patterns) an application goroutine polls ServeMux.ErrorReports() at every instant. Server.Serve on a scripted listener with two connections (both accepted, or one accepted and one attached with diam.NewConn); three requests per connection (re-auth, device-watchdog, capabilities-exchange, in that order) delivered as {one segment, one segment per message, split at the header/body border, first message in 10-byte pieces, first message one byte at a time}; instrumented handlers record enter/exit around a scheduling point and answer; variants: plain, and the first handler on connection A blocked for ever; in one arrival pattern the first handler of connection B requests CloseNotify (so the rest of B's messages pass through the reader switch); one arrival pattern runs on a zero Server{} (DefaultServeMux, default dictionary); every schedule up to preemption bound 3 (thorough 6). The environment is eager (all fragments queued before the server starts; a Read never crosses a fragment boundary), because the arrival instant of a fragment is unobservable to a per-connection single-threaded reader; what is explored is every interleaving of the accept loop, the per-connection readers and the handlers.",
+		Rule: "A handler of connection A blocked inside Parser.Load of a private dictionary (package dict is part of the instrumented build) while connection B receives. Two connections send requests no handler matches while nobody reads ErrorReports, then a handled one each. Two relay scenarios with a multistream (SCTP) connection B, forwarded to with Message.WriteTo and with the raw Conn.Write adaptor. Two relay scenarios: a handler of connection A blocks inside a Write to connection B (whose peer has stopped reading) while B keeps receiving - under a Server with and without ReadTimeout / WriteTimeout. In the blocked-handler mode (two of the six arrival patterns) an application goroutine polls ServeMux.ErrorReports() at every instant. Server.Serve on a scripted listener with two connections (both accepted, or one accepted and one attached with diam.NewConn); three requests per connection (re-auth, device-watchdog, capabilities-exchange, in that order) delivered as {one segment, one segment per message, split at the header/body border, first message in 10-byte pieces, first message one byte at a time}; instrumented handlers record enter/exit around a scheduling point and answer; variants: plain, and the first handler on connection A blocked for ever; in one arrival pattern the first handler of connection B requests CloseNotify (so the rest of B's messages pass through the reader switch); one arrival pattern runs on a zero Server{} (DefaultServeMux, default dictionary); every schedule up to preemption bound 3 (thorough 6). The environment is eager (all fragments queued before the server starts; a Read never crosses a fragment boundary), because the arrival instant of a fragment is unobservable to a per-connection single-threaded reader; what is explored is every interleaving of the accept loop, the per-connection readers and the handlers.",
 		Assume: []string{"data-race freedom between visible operations (audited separately with -race)"},
 		QuickBudget: 120, ThoroughBudget: 2400,
 	}
@@ -385,6 +385,7 @@ func c08Scenarios(tier string) []*Scenario {
 	out = append(out, c08RelayBlocked(false, bound), c08RelayBlocked(true, bound))
 	out = append(out, c08RelayBlockedMulti(false, bound), c08RelayBlockedMulti(true, bound))
 	out = append(out, c08UnmatchedNoReader(bound))
+	out = append(out, c08HandlerLoadsDictionary(bound))
 	return out
 }
 
@@ -1220,4 +1221,64 @@ func c08UnmatchedNoReader(bound int) *Scenario {
 	}
 	return &Scenario{Name: "dispatch/unmatched-requests-with-no-error-report-reader", Body: body, Check: check, Bound: bound, Horizon: 10 * time.Second,
 		Outcome: func(s *vs.Sched) string { return fmt.Sprint(c08un.handled) }}
+}
+
+// c08HandlerLoadsDictionary: the handler of connection A's first message loads a PRIVATE dictionary
+// (dict.NewParser) from a source that never delivers - it stays blocked inside Parser.Load. The
+// private parser is nobody else's business: connection B's messages are dispatched regardless.
+var c08ld struct {
+	handledB []uint32
+	loading  bool
+}
+
+func c08HandlerLoadsDictionary(bound int) *Scenario {
+	body := func() {
+		c08ld.handledB, c08ld.loading = nil, false
+		a, b := vnet.NewConn("A"), vnet.NewConn("B")
+		a.Pieces, b.Pieces = 1, 1
+		lis := vnet.NewListener()
+		mux := diam.NewServeMux()
+		mux.HandleFunc("ALL", func(c diam.Conn, m *diam.Message) {
+			if m.Header.HopByHopID == 2 {
+				c08ld.handledB = append(c08ld.handledB, m.Header.EndToEndID)
+				return
+			}
+			p, err := dict.NewParser()
+			if err != nil {
+				return
+			}
+			pr, _ := vs.Pipe() // a dictionary source that never delivers a byte
+			c08ld.loading = true
+			vs.Touch(a, "loading")
+			vs.Event("handler on A loads a private dictionary from a source that does not deliver")
+			p.Load(pr)
+		})
+		srv := &diam.Server{Handler: mux, Dict: dict.Default}
+		a.Deliver(srvReq(0, 0))
+		lis.Offer(vnet.AcceptItem{Conn: a})
+		lis.Offer(vnet.AcceptItem{Conn: b})
+		vs.GoNamed("serve", false, func() { srv.Serve(lis) })
+		vs.GoNamed("peerB", true, func() {
+			vs.BlockObj("wait-A-loading", a, func() bool { return c08ld.loading })
+			vs.Yield("env")
+			b.Deliver(srvReq(1, 0))
+			vs.Yield("env")
+			b.Deliver(srvReq(1, 1))
+		})
+	}
+	check := func(s *vs.Sched) string {
+		var v []string
+		if !c08ld.loading {
+			v = append(v, "harness: the handler of A never started loading")
+		}
+		if fmt.Sprint(c08ld.handledB) != "[1 2]" {
+			v = append(v, fmt.Sprintf("connection B: messages %v handled, the peer sent [1 2] while a handler of connection A was blocked loading a private dictionary (library goroutines blocked: %v)", c08ld.handledB, s.BlockedLib()))
+		}
+		for _, p := range s.Panics() {
+			v = append(v, "panic: "+p)
+		}
+		return strings.Join(v, " | ")
+	}
+	return &Scenario{Name: "dispatch/handler-blocked-loading-a-private-dictionary", Body: body, Check: check, Bound: bound, Horizon: 10 * time.Second,
+		Outcome: func(s *vs.Sched) string { return fmt.Sprint(c08ld.handledB) }}
 }
